@@ -591,6 +591,27 @@ fn miri_body(thorough: bool, part: &str) {
         states += s;
         transitions += t;
         checked += c;
+        // long runs of zero sections (a break of k sections is one stored entry: the logical length runs ahead of the stored
+        // one and of the capacity), cloned and used on — what every gradual step does with the peaks of a map with a break
+        for k in [3usize, 5, 9, 17] {
+            for lead in [Some(0u8), None] {
+                let mut h: Vec<SOp> = lead.map(SOp::Push).into_iter().collect();
+                h.extend(std::iter::repeat(SOp::Push(5)).take(k));
+                h.extend([SOp::Clone, SOp::Push(1), SOp::Sum, SOp::Iter, SOp::Clone, SOp::Len, SOp::IntoVec]);
+                println!("MIRI-STEP strainsvec zero run of {k} then clone: {h:?}");
+                match strains_run(&h) {
+                    Ok((_, _, c)) => {
+                        states += 1;
+                        transitions += h.len() as u64;
+                        checked += c;
+                    }
+                    Err(m) => {
+                        println!("MIRI-FAIL strainsvec history={h:?} {m}");
+                        std::process::exit(1);
+                    }
+                }
+            }
+        }
     }
     // (m2) gradual lifetimes
     let gdepth = if thorough { 3 } else { 2 };
@@ -734,7 +755,7 @@ fn main() {
     }
 
     let ctx = Ctx::from_env("C11");
-    ctx.rule("universes: 'strainsvec/*' = BFS over all operation histories (push of 10 values incl. subnormal, +-0, -1, +-NaN, inf; len; iter with ExactSizeIterator::len after every step; sum; clone; retain_non_zero; sort_desc; retain_non_zero_and_sort; sorted_non_zero_iter_mut + scale by 3/4 (values stay positive: the list's invariant); into_vec; transmute_into_vec — preconditions of the unsafe / debug-asserted methods respected) to depth 6 (quick) / 7 from every 2-push prefix, against a plain Vec<f64>, key = (reference content, may-contain-zero flag); executed by this release build and by workers built with debug assertions, for the default and the raw_strains list; 'sorts' = every key array of length <= 7 over 3 keys for TandemSorter (stable, tandem, reuse), the C# introsort port, the legacy hit-object sort and LimitedQueue; 'miri' = the same StrainsVec BFS at depth 3/4, every move/box/vec/swap/drop history of gradual calculators (depth 2 on osu!+taiko / 3 on all modes; natively to depth 4 in workers built with debug assertions, where an out-of-bounds get_unchecked aborts), the same for calculators built from a Difficulty that carries passed_objects(0|1) (next / nth(1) histories), the decoder on every malformed slider path of <= 3 segments followed by a well-formed slider, the Beatmap helper methods (check_suspicion, bpm, total_break_time, attributes) on maps of 0..=3 objects of every mode, taiko with and without Relax on maps that open with swells / a drum roll, and the sorts, all interpreted by Miri (cargo +nightly miri run): any undefined behaviour fails the check (the mania map of the Miri walks has its first note left and its last note right of the playfield); 'off-playfield/unsafe-contracts' = three objects with x in {+-100000, +-600, -1, 0, 511, 512} squared x y in {-600, 192, 100000} x {circle, long object}, 4 native modes and all conversions, in workers with debug assertions and the contract monitor; non-trivial = every history");
+    ctx.rule("universes: 'strainsvec/*' = BFS over all operation histories (push of 10 values incl. subnormal, +-0, -1, +-NaN, inf; len; iter with ExactSizeIterator::len after every step; sum; clone; retain_non_zero; sort_desc; retain_non_zero_and_sort; sorted_non_zero_iter_mut + scale by 3/4 (values stay positive: the list's invariant); into_vec; transmute_into_vec — preconditions of the unsafe / debug-asserted methods respected) to depth 6 (quick) / 7 from every 2-push prefix, against a plain Vec<f64>, key = (reference content, may-contain-zero flag); executed by this release build and by workers built with debug assertions, for the default and the raw_strains list; 'sorts' = every key array of length <= 7 over 3 keys for TandemSorter (stable, tandem, reuse), the C# introsort port, the legacy hit-object sort and LimitedQueue; 'miri' = the same StrainsVec BFS at depth 3/4 plus zero runs of 3 / 5 / 9 / 17 sections cloned and used on, every move/box/vec/swap/drop history of gradual calculators (depth 2 on osu!+taiko / 3 on all modes; natively to depth 4 in workers built with debug assertions, where an out-of-bounds get_unchecked aborts), the same for calculators built from a Difficulty that carries passed_objects(0|1) (next / nth(1) histories), the decoder on every malformed slider path of <= 3 segments followed by a well-formed slider, the Beatmap helper methods (check_suspicion, bpm, total_break_time, attributes) on maps of 0..=3 objects of every mode, taiko with and without Relax on maps that open with swells / a drum roll, and the sorts, all interpreted by Miri (cargo +nightly miri run): any undefined behaviour fails the check (the mania map of the Miri walks has its first note left and its last note right of the playfield); 'off-playfield/unsafe-contracts' = three objects with x in {+-100000, +-600, -1, 0, 511, 512} squared x y in {-600, 192, 100000} x {circle, long object}, 4 native modes and all conversions, in workers with debug assertions and the contract monitor; non-trivial = every history");
     ctx.assume("Miri is the monitor for invalid accesses; the nightly toolchain with miri is available offline");
 
     let root = PathBuf::from(std::env::var("VERIF_ROOT").unwrap_or_else(|_| "/verif".into()));
